@@ -6,7 +6,7 @@ CFG = {
     "go_cmd": "c17",
     "stages": ["go:gen", "go:impl", "lean:judge"],
     "theorems": [T + n for n in ["C17_roundtrip", "C17_unsupported", "C17_guard_exact", "C17_guard_emitted",
-                                 "C17_numfmt_int"]],
+                                 "C17_numfmt_int", "C17_injective"]],
     "trusted_base": [
         "Lean 4.33.0 kernel; axioms of every theorem printed by #print axioms must be within {propext, Classical.choice, Quot.sound}",
         "model lean/GeomV/C17/Model.lean is tied to /repo/encoding/wkt by the correspondence run on every check: byte-exact comparison of "
